@@ -275,7 +275,7 @@ class Ctx:
         # parse Print Assumptions output: blocks in order of appearance
         blocks = re.split(r"(?=Closed under the global context|Axioms:)", out2)
         blocks = [b.strip() for b in blocks if b.startswith("Closed under") or b.startswith("Axioms:")]
-        pa_names = re.findall(r"Print\s+Assumptions\s+([A-Za-z0-9_'.]+)", pf.read_text())
+        pa_names = [n.rstrip('.') for n in re.findall(r"Print\s+Assumptions\s+([A-Za-z0-9_'.]+)", pf.read_text())]
         for i, n in enumerate(pa_names):
             self.assumptions_out[n] = blocks[i][:600] if i < len(blocks) else "?"
         for n in names:
